@@ -128,7 +128,11 @@ def run(ctx):
             for tg in P.call_targets(t):
                 if tg in P.fns:
                     e = e or W.ev(f.path)
+                    from lib import closure_env_terms
+                    envm = closure_env_terms(W, f.path)
                     for i, a in enumerate(e.call_args(bb)):
+                        if envm:
+                            a = W.subst(a, envm)      # a value captured by the thread's closure, as main created it
                         if a == ("static", FLAG) or values.contains(a, lambda s: s == ("static", FLAG)):
                             bound.setdefault(tg, set()).add(("param", tg, i + 1))
 
@@ -299,8 +303,9 @@ def run(ctx):
     det = fmt(pd)
     if pd is not None and pd[0] == "agg" and str(pd[1]).endswith("Option::Some"):
         d = pd[2][0]
-        if is_call(d) and callee_name(d[1]) in ("from_millis", "from_secs", "from_micros") and d[2][0][0] == "int":
-            ms = d[2][0][1] * {"from_millis": 1, "from_secs": 1000, "from_micros": 0.001}[callee_name(d[1])]
+        from lib import duration_ms
+        ms = duration_ms(W, d)
+        if ms is not None:
             okp = 0 < ms <= 1000
             det = "%s ms" % ms
     ctx.check("poll-timeout", "Some-constant-at-most-1s", okp, "poll timeout = Some(%s)" % det, "poll timeout is %s: an idle worker would not notice the flag" % det, ctx.loc(sfn))
@@ -315,8 +320,9 @@ def run(ctx):
     rl = ctx.fn("roughenough::stats::reporter::Reporter::processing_loop")
     rev = W.ev(rl.path)
     sleeps = [(bb, rev.call_args(bb)) for bb, t in rl.calls() if callee_name(t["fn"].get("path", "")) == "sleep" and "thread" in t["fn"].get("path", "")]
-    oksl = len(sleeps) == 1 and is_call(sleeps[0][1][0]) and sleeps[0][1][0][2][0][0] == "int" and callee_name(sleeps[0][1][0][1]) in ("from_secs", "from_millis") and \
-        sleeps[0][1][0][2][0][1] * (1000 if callee_name(sleeps[0][1][0][1]) == "from_secs" else 1) <= 2000
+    from lib import duration_ms
+    sl_ms = duration_ms(W, sleeps[0][1][0]) if len(sleeps) == 1 else None
+    oksl = sl_ms is not None and sl_ms <= 2000
     ctx.check("reporter-bound", "constant-sleep", oksl, "one reporter iteration sleeps a constant <= 2 s", "reporter sleep is %s" % [fmt(s[1][0]) for s in sleeps], ctx.loc(rl))
     ok_bound = ("param", rl.path, 2) in bound.get(rl.path, set())
     ctx.check("reporter-bound", "flag-parameter-is-KEEP_RUNNING", ok_bound, "processing_loop(keep_running) is called with KEEP_RUNNING", "the reporter's flag parameter is not bound to KEEP_RUNNING")
